@@ -5,6 +5,7 @@ record list consistent with it, and a `Secure` verdict), so the theorems do not 
 -/
 import HickoryVerif.Proofs.C09
 import HickoryVerif.Proofs.C09Findings
+import HickoryVerif.Proofs.C09Complete
 
 namespace HickoryVerif.C09
 open HickoryVerif HickoryVerif.Nsec3 HickoryVerif.Denial3 Std
@@ -118,5 +119,35 @@ theorem secure_ex :
 example : ClaimNoData Zex [[97], [122]] 16 ∨ ClaimWildcardNoData Zex [[97], [122]] 16 :=
   (verify_nodata_sound encOrd_shift hashWF_ex secure_ex.1 Zex_wf consistent_ex noCollisions_ex
     (.inl rfl) (.inl rfl) (.inl rfl) (.inl rfl)).2 (by decide)
+
+/-! non-vacuity of the completeness hypotheses: the apex record `01 → 0a` is a closest encloser
+proof for `a.z.` (closest encloser `z.`) and covers the wildcard `*.z.` -/
+
+def apexPair : Pair :=
+  { label := encShift [1]
+    data := { owner := ⟨[encShift [1], [122]], true⟩, next := [10], optOut := false, iterations := 0,
+              salt := [], types := [2, 6] } }
+
+theorem hasCover_ex (t : List Bytes) (h : Inside [1] [10] (H0 (mk t))) :
+    HasCover H0 encShift [apexPair] t :=
+  ⟨apexPair, by simp, [1], by decide, by decide, by decide, by decide, h⟩
+
+theorem hasCEProof_ex : HasCEProof H0 encShift (mk [[122]]) [apexPair] [] [97] [[122]] := by
+  refine ⟨by decide, ?_, ?_, ⟨apexPair, by simp, by decide⟩, hasCover_ex _ (by decide)⟩
+  · intro i hi
+    have : i = 0 := by simp at hi; omega
+    subst this
+    decide
+  · intro i hi p hp
+    have : i = 0 := by simp at hi; omega
+    subst this
+    simp only [List.mem_singleton] at hp
+    subst hp
+    decide
+
+example : validateNxdomain asIs H0 encShift (mk [[97], [122]]) (some (mk [[122]])) [apexPair]
+    = .secure :=
+  nxdomain_complete encOrd_shift hashWF_ex.hash hasCEProof_ex (hasCover_ex _ (by decide))
+    ⟨mk [[42], [122]], by decide⟩ (.inl rfl) (.inl rfl)
 
 end HickoryVerif.C09
